@@ -300,8 +300,73 @@ func copies() {
 	emit(fmt.Sprint("copy ", orig.v, " ", p1.v, " ", bumpCopy(orig), " ", orig.v))
 }
 
+// ---- type surgery: an enumeration of two values, a struct that only lives inside another, a
+// small array indexed by constants, a held value with a forwarding method ----
+
+type presence uint8
+
+const (
+	given presence = iota
+	omitted
+)
+
+type flags struct{ group, access bool }
+
+func (f *flags) setGroup()     { f.group = true }
+func (f *flags) isGroup() bool { return f.group }
+
+type span struct{ lo, hi int }
+
+type pairOf [2]string
+
+const (
+	leftSide  = 0
+	rightSide = 1
+)
+
+type speaker interface{ speak(s string) string }
+
+type loud struct{}
+
+func (loud) speak(s string) string { return s + "!" }
+
+type holderT struct {
+	flags
+	reach span
+	sides pairOf
+	when  presence
+	voice speaker
+}
+
+func (h *holderT) speak(s string) string { return h.voice.speak(s) }
+
+func toPresence(b bool) presence {
+	if b {
+		return omitted
+	}
+	return given
+}
+
+func surgery() {
+	h := &holderT{flags: flags{access: true}, reach: span{lo: 1, hi: 4}, sides: pairOf{"l", "r"}, when: toPresence(true), voice: loud{}}
+	h.setGroup()
+	var local pairOf
+	local[leftSide] = "x"
+	local[rightSide] = h.sides[rightSide]
+	h2 := holderT{sides: local, when: given}
+	state := given
+	if h.flags.access {
+		state = omitted
+	}
+	if h.when == omitted && h2.when != omitted {
+		emit("surgery: first omitted, second given")
+	}
+	emit(fmt.Sprint("surgery ", h.isGroup(), h.flags.access, h.reach.lo+h.reach.hi, h.sides[leftSide], h2.sides[leftSide], h2.sides[rightSide], h.speak("hey"), h.when == omitted, h2.when == given, state == omitted, h2.isGroup()))
+}
+
 func main() {
 	copies()
+	surgery()
 	structs()
 	objects()
 	w := &wrapper{base: &base{prefix: "w"}}
